@@ -107,6 +107,9 @@ Record outcome (sp : spec) (k : kind) (u : updfn) (w w' : world) (e wr : bool) :
 Lemma kept_core_refl : forall s, kept_core s s.
 Proof. intros; split; auto. Qed.
 
+Lemma outcome_noop : forall sp k u w, outcome sp k u w w false false.
+Proof. intros. constructor; auto using kept_core_refl; try discriminate. Qed.
+
 Ltac crush_moved b :=
   exists b; cbn; repeat split; auto.
 
@@ -115,6 +118,7 @@ Lemma kill_pods_outcome : forall fixed w rt tg u F w' e wr,
   outcome (v_spec w) (match tg with None => KKill rt | Some _ => KTarget end) u w w' e wr.
 Proof.
   intros fixed w rt tg u F w' e wr H. unfold kill_pods_gen in H.
+  destruct (c_vdel (v_ctl w)); [inversion H; subst; apply outcome_noop|].
   destruct tg as [[t|t p|]|].
   all: try (destruct (kill_select _ _ _ _ _) as [kill term0] eqn:Hsel;
             destruct (any_fault F kill); [inversion H; subst; clear H|
@@ -161,6 +165,9 @@ Lemma sync_job_outcome : forall w u F w' e wr,
   sync_job w u F = (w', e, wr) -> outcome (v_spec w) KSync u w w' e wr.
 Proof.
   intros w u F w' e wr H. unfold sync_job, sync_job_gen in H.
+  destruct (c_vdel (v_ctl w)); [inversion H; subst; apply outcome_noop|].
+  destruct (c_queue (v_ctl w)); cbn [negb] in H;
+    [|inversion H; subst; constructor; auto using kept_core_refl; discriminate].
   remember (phase_beq (st_phase (v_st w)) PhNone) as init eqn:Hinit.
   assert (Hph : init = true -> st_phase (v_st w) = PhNone).
   { intros ->. symmetry in Hinit. apply phase_beq_true in Hinit. exact Hinit. }
